@@ -409,7 +409,7 @@ func TestTxProof(t *testing.T) {
 // ---------------------------------------------------------------------------------------------------------------
 // TestPartSet: NewPartSetFromData x delivery histories into NewPartSetFromHeader.
 
-var partSizeClasses = [][2]int{{1, 1}, {2, 16}, {17, 1024}, {1025, 65535}, {65536, 65536}}
+var partSizeClasses = [][2]int{{1, 1}, {2, 16}, {17, 1024}, {1025, 65535}, {65536, 65536}, {65537, 4294967295}}
 
 type psCase struct {
 	data      []byte
@@ -454,6 +454,18 @@ func genPSCase(t *rapid.T, maxN, maxBytes int) psCase {
 	var c psCase
 	cl := rapid.SampledFrom(partSizeClasses).Draw(t, "ps.class")
 	c.partSize = rapid.IntRange(cl[0], cl[1]).Draw(t, "ps")
+	if cl[0] > 65536 {
+		// "all part sizes": the parameter is a uint32. Above BlockPartSizeBytes: a little above (several parts), anywhere,
+		// around 2^31, and right below 2^32
+		switch rapid.IntRange(0, 3).Draw(t, "ps.large") {
+		case 0:
+			c.partSize = rapid.IntRange(65537, 1<<17).Draw(t, "ps")
+		case 1:
+			c.partSize = 1<<31 + rapid.IntRange(-2, 2).Draw(t, "ps.d")
+		case 2:
+			c.partSize = 1<<32 - 1 - rapid.IntRange(0, 70000).Draw(t, "ps.below")
+		}
+	}
 	c.sizeClass = fmt.Sprintf("partsize:%d-%d", cl[0], cl[1])
 	n := genLeafCount(t, maxN, "n")
 	if (n-1)*c.partSize+1 > maxBytes {
@@ -468,6 +480,9 @@ func genPSCase(t *rapid.T, maxN, maxBytes int) psCase {
 	default:
 		rem = rapid.IntRange(1, c.partSize).Draw(t, "rem")
 	}
+	if (n-1)*c.partSize+rem > maxBytes {
+		rem = rapid.IntRange(1, maxBytes-(n-1)*c.partSize).Draw(t, "rem.capped")
+	}
 	length := (n-1)*c.partSize + rem
 	c.n = n
 	c.dataKind = rapid.SampledFrom([]string{"random", "random", "zeros", "period=partsize", "period=2*partsize", "block", "block"}).Draw(t, "datakind")
@@ -481,6 +496,9 @@ func genPSCase(t *rapid.T, maxN, maxBytes int) psCase {
 		p := c.partSize
 		if c.dataKind == "period=2*partsize" {
 			p *= 2
+		}
+		if p > length {
+			p = length
 		}
 		unit := expand(seed, p)
 		c.data = make([]byte, length)
@@ -532,6 +550,17 @@ func TestPartSet(t *testing.T) {
 
 		// ---- NewPartSetFromData against the reference (completeness) ----
 		src := types.NewPartSetFromData(pc.data, uint32(pc.partSize))
+		if int(src.Total()) != n && len(pc.data)+pc.partSize-1 >= 1<<32 {
+			lib.Class("TestPartSet", "FINDING:part-count-wraps")
+			if lib.IsKnown(idTotalWraps) {
+				lib.ObservedKnown(idTotalWraps)
+				lib.ExcludedByKnown(idTotalWraps)
+				lib.Case("TestPartSet", lib.FP(len(pc.data), pc.partSize, "wraps"), false, pc.sizeClass)
+				return
+			}
+			t.Fatalf("[%s] NewPartSetFromData(len=%d, partSize=%d): total=%d (want %d), complete=%v, hash=%x: the part count is computed in uint32 and wraps because len+partSize-1 >= 2^32 — the data is lost",
+				idTotalWraps, len(pc.data), pc.partSize, src.Total(), n, src.IsComplete(), src.Hash())
+		}
 		if int(src.Total()) != n || !bytes.Equal(src.Hash(), ref.root) || !src.IsComplete() || int(src.Count()) != n || src.ByteSize() != int64(len(pc.data)) {
 			t.Fatalf("NewPartSetFromData(len=%d, partSize=%d): total=%d (want %d) hash=%x (want %x) complete=%v count=%d bytes=%d",
 				len(pc.data), pc.partSize, src.Total(), n, src.Hash(), ref.root, src.IsComplete(), src.Count(), src.ByteSize())
@@ -545,7 +574,7 @@ func TestPartSet(t *testing.T) {
 				!bytes.Equal(p.Proof.LeafHash, ref.leafH[i]) || !auntsEqual(p.Proof.Aunts, ref.aunts[i]) {
 				t.Fatalf("part %d/%d of NewPartSetFromData differs from the reference (index=%d len=%d proof=%d/%d)", i, n, p.Index, len(p.Bytes), p.Proof.Index, p.Proof.Total)
 			}
-			if err := p.ValidateBasic(); err != nil {
+			if err := p.ValidateBasic(); err != nil && len(p.Bytes) <= int(types.BlockPartSizeBytes) {
 				t.Fatalf("genuine part fails ValidateBasic: %v", err)
 			}
 		}
@@ -561,7 +590,7 @@ func TestPartSet(t *testing.T) {
 			odata = cloneBytes(pc.data)
 			odata[rapid.IntRange(0, len(odata)-1).Draw(t, "foreign.byte")] ^= 0x40
 		case "longer":
-			odata = expand([]byte("other"), len(pc.data)+pc.partSize*rapid.IntRange(1, 3).Draw(t, "foreign.more"))
+			odata = expand([]byte("other"), len(pc.data)+min(pc.partSize, 70000)*rapid.IntRange(1, 3).Draw(t, "foreign.more"))
 		case "shorter":
 			if n > 1 {
 				odata = odata[:len(odata)-pc.partSize*rapid.IntRange(1, min(3, n-1)).Draw(t, "foreign.less")]
@@ -801,7 +830,7 @@ func TestPartSet(t *testing.T) {
 			} else {
 				minBuf := 1 + int(byteSize)/40
 				for {
-					buf := make([]byte, rapid.IntRange(minBuf, minBuf+2*pc.partSize+3).Draw(t, "bufsize"))
+					buf := make([]byte, rapid.IntRange(minBuf, minBuf+2*min(pc.partSize, len(pc.data)+len(odata))+3).Draw(t, "bufsize"))
 					k, err := r.Read(buf)
 					got = append(got, buf[:k]...)
 					if err == io.EOF {
@@ -881,7 +910,7 @@ func seqInts(n int) []int {
 // checkEmptyData: data length 0 ("all data lengths"). The part set of no data has no parts, the root of the empty
 // tree, is complete, refuses every part and reassembles to no bytes.
 func checkEmptyData(t *rapid.T) {
-	partSize := rapid.IntRange(1, 65536).Draw(t, "ps")
+	partSize := rapid.IntRange(1, 1<<32-1).Draw(t, "ps")
 	data := []byte{}
 	if rapid.Bool().Draw(t, "nildata") {
 		data = nil
